@@ -10,12 +10,16 @@ THEOREMS = {
             "Obligations.BackendC.C16_frontend_extracted", "Obligations.BackendC.C16_sinks_extracted"],
     "C20": ["Backend.C20_counter", "Backend.C20_counter_exact", "Backend.C20_early_return_iff",
             "Backend.C20_zero_counter_noop", "Backend.C20_live_contexts_registered",
-            "Backend.C20_idle_poll_retains_live", "Backend.C20_narrow_counter_1bit",
+            "Backend.C20_idle_poll_reclaims", "Backend.C20_idle_poll_retains_live", "Backend.C20_reclaimed_delivered", "Backend.C20_narrow_counter_1bit",
             "Backend.C20_narrow_counter_2bit", "Backend.PC.CInv_runOps",
             "Obligations.BackendC.invalid_counter_wide", "Obligations.BackendC.c20_structure",
             "Obligations.BackendC.C20_counter_extracted", "Obligations.BackendC.C20_early_return_extracted"],
+    "C07": ["Backend.C07_conservation", "Backend.C07_unregistered_empty", "Backend.C07_exit_drains",
+            "Backend.C07_exit_flushes_last", "Backend.PC.TCInv_runOps",
+            "Obligations.BackendC.c07_structure", "Obligations.BackendC.C07_exit_drains_extracted"],
 }
 MODULES = {
+    "C07": ["QuillModel.Props.C07Drain"],
     "C16": ["QuillModel.Props.C16"],
     "C20": ["QuillModel.Props.C20"],
 }
